@@ -234,7 +234,7 @@ class Exec:
         if m: return Str([ord(c) for c in m.group(1)])
         if txt.startswith('b"'): return Opaque('bytes')
         if txt == '()': return UNIT
-        if txt.startswith('ZeroSized: {closure@'): return ClosureVal(None, [])
+        if txt.startswith('ZeroSized: {closure@'): return ClosureVal(re.search(r'\{closure@([^}]+)\}', txt).group(1), [])
         if txt.startswith('ZeroSized:'): return Opaque(txt)
         # enum unit variant constant e.g. "TokenKind::Eof" / "Option::<usize>::None" / "MySyntaxKind::FILE"
         v = s.variant_value(txt, [])
@@ -338,11 +338,11 @@ class Exec:
                 while isinstance(v, Agg) and len(v.fields) == 1 and isinstance(v.fields[0], (Agg, Ref)): v = v.fields[0]
             return v
         m = re.fullmatch(r'\{closure@([^}]+)\}', txt)
-        if m: return ClosureVal(None, [])
+        if m: return ClosureVal(m.group(1), [])
         m = re.fullmatch(r'\{closure@([^}]+)\} \{ (.*) \}', txt)
         if m:
             caps = [s.operand(frame, x.split(': ', 1)[1]) for x in s.split_args(m.group(2))] if m.group(2).strip() else []
-            return ClosureVal(None, caps)
+            return ClosureVal(m.group(1), caps)
         # struct / enum-struct-variant aggregate:  Path { a: op, b: op }
         m = re.fullmatch(r'([\w:<>\', ]+?) \{ (.*) \}', txt)
         if m:
